@@ -806,21 +806,26 @@ struct Exec {
                 Lookup lk = ops.lookup(id);
                 d.set("class", c);
                 d.set("alias", a);
+                // C10 states it too, for classes with several ids: "every id
+                // of a class reaches that class's definitions"
+                const char* lp = opts.focus == "C10" &&
+                        __builtin_popcount(am) > 1
+                    ? "C10" : "C05";
                 if (lk.rejected)
                     return violate(
-                        "C05", "lookup", "registered-id-rejected",
+                        lp, "lookup", "registered-id-rejected",
                         "registered id of class " + std::to_string(c) +
                             " is rejected by the checked hash",
                         d);
                 if (!lk.ok)
                     return violate(
-                        "C05", "lookup", "index-out-of-range",
+                        lp, "lookup", "index-out-of-range",
                         "registered id of class " + std::to_string(c) +
                             " maps outside the v-table pointer table",
                         d);
                 if (lk.vptr != sn.static_vptr[c])
                     return violate(
-                        "C05", "lookup", "wrong-vptr",
+                        lp, "lookup", "wrong-vptr",
                         "id of class " + std::to_string(c) + " alias " +
                             std::to_string(a) +
                             " does not reach that class's v-table pointer",
@@ -2128,8 +2133,12 @@ struct Exec {
                         d);
                 }
             } else {
+                // in a flavour differential a flavour that cannot update at
+                // all is the largest difference there is
                 return violate(
-                    "C07", "update", "failed",
+                    plan.diff == "flavours" && !plan.prop.empty() ? plan.prop
+                                                                  : "C07",
+                    "update", "failed",
                     "update of a well-formed registry failed with error "
                     "alternative " +
                         std::to_string(uo.err.alt),
